@@ -91,3 +91,33 @@ func Harness_C01_newconsumer_step() {
 		verifReach("first_get")
 	}
 }
+
+// C01 put_batches_contiguous: two producers race; one Put carries a large batch (verifBigBatch values),
+// the other a single value. Whatever the interleaving, the single value ends up before or after the
+// whole batch - never inside it (each call's values are contiguous and in argument order).
+const verifBigBatch = 1100
+
+func Harness_C01_put_batches_contiguous() {
+	s := verifConcreteBuffer()
+	b := s.b
+	big := make([]interface{}, verifBigBatch)
+	big[0], big[1], big[verifBigBatch-2], big[verifBigBatch-1] = vtok(1), vtok(2), vtok(3), vtok(4)
+	var e1, e2 error
+	go func() { e1 = b.Put(context.Background(), big...) }()
+	go func() { e2 = b.Put(context.Background(), vtok(9)) }()
+	verifFinally(func() {
+		verifAssert(e1 == nil && e2 == nil, "puts_succeed")
+		verifAssert(len(b.buffer) == verifBigBatch+1, "all_values_appended")
+		if len(b.buffer) == verifBigBatch+1 {
+			first := b.buffer[0] == vtok(9)
+			last := b.buffer[verifBigBatch] == vtok(9)
+			verifAssert(first || last, "a_concurrent_put_never_lands_inside_another_calls_batch")
+			o := 0
+			if first {
+				o = 1
+			}
+			verifAssert(b.buffer[o] == vtok(1) && b.buffer[o+1] == vtok(2) && b.buffer[o+verifBigBatch-2] == vtok(3) && b.buffer[o+verifBigBatch-1] == vtok(4), "batch_in_argument_order")
+		}
+		verifReach("quiescent")
+	})
+}
